@@ -10,7 +10,12 @@ import . "goa.design/goa/v3/dsl"
 var _ = API("types", func() {
 	Title("Type heavy API")
 	Server("types", func() {
-		Host("localhost", func() { URI("http://localhost:8000") })
+		// (several schemes on one host: their order in the documents must not depend on a map)
+		Host("localhost", func() {
+			URI("https://localhost:8443")
+			URI("http://localhost:8000")
+			URI("https://localhost:9443/alt")
+		})
 	})
 })
 
